@@ -1,4 +1,4 @@
-//go:build verif
+//go:build verif && (verif_c02 || verif_c09 || verif_c12)
 
 package silence
 
